@@ -52,11 +52,12 @@ struct UserTimeMap
     double backward(double tau, double T, double gradT) const
     {
         note();
-        (void)T;
         switch (cfg.mode)
         {
         case 0:
-            return gradT * cfg.scale * std::exp(tau);
+            // dT/dtau = T for T = scale*exp(tau): this map relies on the documented contract that the T it is handed is
+            // toTime(tau) of the CURRENT decision vector
+            return gradT * T;
         case 1:
         {
             if (tau > 0)
